@@ -167,16 +167,17 @@ class Model:
                 (n == 'INBOX' and glob_match(full.upper(), 'INBOX'))}
 
 
-NAMES = ['a', 'a/b', 'a/b/c', 'ab', 'B', 'inbox', 'Inbox/x', 'a*b', 'a%b', 'q"uote', 'new\nline', 'é', 'a/é', 'Sent']
+NAMES = ['a', 'a/b', 'a/b/c', 'ab', 'B', 'inbox', 'Inbox/x', 'a*b', 'a%b', 'q"uote', 'new\nline', 'nl\n', 'é', 'a/é', 'Sent']
 PATTERNS = [('', '*'), ('', '%'), ('', 'a*'), ('', 'a%'), ('', 'a/%'), ('', '%/%'), ('a/', '%'), ('a', '%'), ('', 'a/b'),
             ('', '*b'), ('', 'INBOX'), ('', 'inbox'), ('', 'I%'), ('a/', '*'), ('', '%b'), ('', 'ab%'), ('', 'a%b'),
             ('', '*e'), ('', '%\n%'), ('', 'é'), ('', 'S*t'), ('', 'Sent%'), ('', '%Sent'), ('', ''), ('a', ''),
+            ('', 'nl'), ('', 'n%'), ('', '*l'), ('', 'new\nlin'),
             ('', 'inbox*'), ('', 'InBo%'), ('', '%x'), ('in', 'bo%'), ('', 'i*'), ('', '*X'), ('', 'inbox/%')]
 
 
 def ops(tier):
     o = []
-    names = NAMES if tier != 'quick' else NAMES[:12]
+    names = NAMES if tier != 'quick' else NAMES[:13]
     for n in names:
         o += [('create', n), ('delete', n), ('subscribe', n), ('unsubscribe', n), ('status', n), ('append', n)]
     for a, b in [('a', 'z'), ('a', 'ab'), ('a/b', 'a/z'), ('INBOX', 'old'), ('a', 'INBOX'), ('nope', 'x'), ('a', 'a/b2'),
